@@ -51,3 +51,26 @@ async fn f_c16_a_only_connect_is_tunnelled() -> anyhow::Result<()> {
     }
     Ok(())
 }
+
+/// F-C10-a  handler.proxy_tcp_connection_with_synack_internal.exactly_one_synack_for_this_stream_on_every_exit
+/// a destination whose name cannot be resolved must be answered with the failure reason, not left to the 30 s SYNACK timeout
+#[tokio::test]
+async fn f_c10_a_unresolvable_name_is_answered() -> anyhow::Result<()> {
+    let (socks_addr, _up_port) = stack().await?;
+    let mut s = timeout(Duration::from_secs(5), TcpStream::connect(&socks_addr)).await??;
+    s.write_all(&[5, 1, 0]).await?;
+    let mut sel = [0u8; 2];
+    s.read_exact(&mut sel).await?;
+    let host = b"no-such-host.invalid";
+    let mut req = vec![5, 1, 0, 3, host.len() as u8];
+    req.extend_from_slice(host);
+    req.extend_from_slice(&80u16.to_be_bytes());
+    s.write_all(&req).await?;
+    let t0 = std::time::Instant::now();
+    let mut rep = [0u8; 10];
+    let r = timeout(Duration::from_secs(25), s.read(&mut rep)).await;
+    assert!(r.is_ok(), "no verdict after {:?}: the server never answered the open (the client is waiting for its 30 s SYNACK timeout)", t0.elapsed());
+    let n = r.unwrap()?;
+    assert!(n == 0 || rep[1] != 0);
+    Ok(())
+}
